@@ -42,7 +42,7 @@ func checkC03(c *Ctx, r *Report) {
 	var accept []*ssa.Return
 	for _, b := range fn.Blocks {
 		if ret, ok := b.Instrs[len(b.Instrs)-1].(*ssa.Return); ok {
-			if !isFalseConst(ret.Results[0]) {
+			if !isFalseConst(retVals(ret)[0]) {
 				accept = append(accept, ret)
 			} else {
 				r.Count("reject_returns", 1)
@@ -79,7 +79,7 @@ func checkC03(c *Ctx, r *Report) {
 	X1 := xf("SM2Point.GetAffineX", RES)
 	lhs := xf("Int.Mod", xc("Int.Add", X1, xE), "N")
 	wantV := []string{"(" + xf("Int.Cmp", lhs, xR) + " == 0)", "(" + xf("Int.Cmp", xR, lhs) + " == 0)"}
-	got := normText(ps.S(ret.Results[0]))
+	got := normText(ps.S(retVals(ret)[0]))
 	okV := false
 	for _, w := range wantV {
 		if got == w {
@@ -87,7 +87,7 @@ func checkC03(c *Ctx, r *Report) {
 		}
 	}
 	r.Check(okV, "VERDICT-EXPRESSION", "sm2.VerifyHashed", p.InstrPos(ret), "returned verdict is "+got+"; the standard's equation is (e + x1) mod n == r with x1 the affine x of [s]G+[t]P")
-	r.Check(isNilConst(ret.Results[1]), "VERDICT-EXPRESSION", "sm2.VerifyHashed error on accept", p.InstrPos(ret), "the accepting return carries a nil error")
+	r.Check(isNilConst(retVals(ret)[1]), "VERDICT-EXPRESSION", "sm2.VerifyHashed error on accept", p.InstrPos(ret), "the accepting return carries a nil error")
 	// wrappers: decided under C13 (referenced)
 	c03Decoders(r, p, f)
 	// the named predicates the accepted guard spellings rely on must mean what their names say
@@ -122,7 +122,7 @@ func checkPredicateDefs(r *Report, p *Prog, f *Folder) {
 		}
 		ps := newPathSym(p, fn, f)
 		ps.WalkTo(rets[0].Block())
-		got := normText(ps.S(rets[0].Results[0]))
+		got := normText(ps.S(retVals(rets[0])[0]))
 		ok := false
 		for _, a := range d.accept {
 			if got == normText(a) {
@@ -149,8 +149,8 @@ func c03Decoders(r *Report, p *Prog, f *Folder) {
 			if !ok {
 				continue
 			}
-			if !isNilConst(ret.Results[1]) {
-				r.Check(isNilConst(ret.Results[0]), "DECODE-REJECT", fmt.Sprintf("%s error return#%d", d.fn, n), p.InstrPos(ret), "an error return carries a nil element")
+			if !isNilConst(retVals(ret)[1]) {
+				r.Check(isNilConst(retVals(ret)[0]), "DECODE-REJECT", fmt.Sprintf("%s error return#%d", d.fn, n), p.InstrPos(ret), "an error return carries a nil element")
 				n++
 				continue
 			}
@@ -179,8 +179,8 @@ func c03Decoders(r *Report, p *Prog, f *Folder) {
 		if !ok {
 			continue
 		}
-		if !isNilConst(ret.Results[1]) {
-			r.Check(isNilConst(ret.Results[0]), "DECODE-REJECT", name+" error return at "+p.InstrPos(ret), p.InstrPos(ret), "an error return carries a nil point")
+		if !isNilConst(retVals(ret)[1]) {
+			r.Check(isNilConst(retVals(ret)[0]), "DECODE-REJECT", name+" error return at "+p.InstrPos(ret), p.InstrPos(ret), "an error return carries a nil point")
 			continue
 		}
 		accepts++
@@ -236,7 +236,7 @@ func c03Decoders(r *Report, p *Prog, f *Folder) {
 				continue
 			}
 			for rb := range reachableBlocks(b) {
-				if ret, ok := rb.Instrs[len(rb.Instrs)-1].(*ssa.Return); ok && !isNilConst(ret.Results[1]) {
+				if ret, ok := rb.Instrs[len(rb.Instrs)-1].(*ssa.Return); ok && !isNilConst(retVals(ret)[1]) {
 					bad = "receiver mutated at " + p.InstrPos(in) + " on a path that can still return an error at " + p.InstrPos(ret)
 				}
 			}
